@@ -529,3 +529,17 @@ func (s *ServerHello) IsHRR() bool {
 
 // Alert builds a TLS alert record as a peer would see it.
 func Alert(level, desc byte) []byte { return []byte{21, 3, 3, 0, 2, level, desc} }
+
+// HRRRecord builds a HelloRetryRequest record echoing sessionID.
+func HRRRecord(sessionID []byte, group uint16) []byte {
+	sh := &ServerHello{LegacyVersion: 0x0303, Random: append([]byte(nil), HRRRandom...), SessionID: sessionID, CipherSuite: 0x1301,
+		Exts: []Ext{{ExtSupportedVersions, []byte{0x03, 0x04}}, {ExtKeyShare, []byte{byte(group >> 8), byte(group)}}}}
+	return Record(RecHandshake, 0x0303, sh.Message())
+}
+
+// ServerHelloRecord builds an ordinary TLS 1.3 ServerHello record.
+func ServerHelloRecord(random, sessionID []byte) []byte {
+	sh := &ServerHello{LegacyVersion: 0x0303, Random: random, SessionID: sessionID, CipherSuite: 0x1301,
+		Exts: []Ext{{ExtSupportedVersions, []byte{0x03, 0x04}}, {ExtKeyShare, append([]byte{0x00, 0x1d, 0x00, 0x20}, make([]byte, 32)...)}}}
+	return Record(RecHandshake, 0x0303, sh.Message())
+}
